@@ -49,7 +49,7 @@ TOLF = 32.0
 
 def plan(tier):
     if tier == "thorough":
-        return [{"variant": "plain", "workers": 16, "cases": 150000}]
+        return [{"variant": "plain", "workers": 16, "cases": 250000}]
     return [{"variant": "plain", "workers": 16, "cases": 12000}]
 
 
@@ -156,7 +156,7 @@ def run(ctx):
         if verdict == "reject" and accepted:
             why = res.reason or "?"
             key = ACCEPT_KEY.get(why, why.replace("flag-", "illegal-"))
-            if res.G.get("betaonly"):
+            if res.G.get("betaonly") and why == "ld":
                 key += "-empty-product"
             fails.append(("%s:accepts-%s" % (fn, key),
                           "%s accepted a call the documentation forbids (%s)%s" %
